@@ -90,7 +90,6 @@ func (cw *ConfigWatcher) SubscriptionListener(ctx context.Context, msg string) {
 // Monitor periodically wakes up and tells the config to reload itself.
 // If it changed, it will publish a message to the pubsub through the ReloadCallback.
 func (cw *ConfigWatcher) monitor() {
-	cw.done = make(chan struct{})
 	cfgReload := cw.Config.GetGeneralConfig().ConfigReloadInterval
 	// adjust the requested time by +/- 10% to avoid everyone reloading at the same time
 	reload := time.Duration(float64(cfgReload) * (0.9 + 0.2*rand.Float64()))
@@ -118,6 +117,9 @@ func (cw *ConfigWatcher) Start() error {
 	cw.topic = cw.PubSub.FormatTopic(ConfigPubsubTopic)
 
 	if cw.Config.GetGeneralConfig().ConfigReloadInterval != 0 {
+		// create the channel before starting the goroutine so that Stop
+		// never reads it while monitor is still assigning it
+		cw.done = make(chan struct{})
 		go cw.monitor()
 	}
 	cw.subscr = cw.PubSub.Subscribe(context.Background(), cw.topic, cw.SubscriptionListener)
